@@ -34,7 +34,37 @@ impl Prop for C01 {
         }
     }
     fn gen(seed: u64, _idx: u64, tier: Tier) -> MuxScenario {
-        gen_valid(seed, tier)
+        let mut sc = gen_valid(seed, tier);
+        // C01 only (its oracle does no arithmetic on header durations): 1 history in 300 puts the
+        // first track at timescale 1 or 2 under a movie timescale near 2^32 and plants samples
+        // with durations near 2^32 in it, so that the track's duration in movie ticks runs out
+        // of 64 bits after one or two of them. The muxer must refuse the samples that do not
+        // fit - the model follows its decisions - and a refused sample must leave no trace.
+        let mut r = Rng::new(seed ^ 0x0F10);
+        if r.chance(1, 300) && sc.fault.is_none() {
+            let mut first = true;
+            for op in sc.ops.iter_mut() {
+                if let Op::AddTrack(t) = op {
+                    if first {
+                        t.timescale = 1 + r.below(2) as u32;
+                        first = false;
+                    }
+                }
+            }
+            if !first {
+                sc.cfg.timescale = u32::MAX - r.below(3) as u32;
+                let n_big = 2 + r.below(3);
+                for k in 0..n_big {
+                    // somewhere behind the first add_track, in front of the final write_end
+                    let lo = sc.ops.iter().position(|o| matches!(o, Op::AddTrack(_))).unwrap_or(0) + 1;
+                    let hi = sc.ops.len().saturating_sub(1).max(lo);
+                    let at = lo + r.usize_below(hi - lo + 1);
+                    let s = SampleW { payload: Payload::Stamp { len: 1 + r.below(300) as u32, tag: 2_000_000 + k as u32 }, duration: u32::MAX - r.below(2) as u32, offset: 0, sync: r.chance(1, 2), start_time: 0 };
+                    sc.ops.insert(at.min(sc.ops.len().saturating_sub(1)), Op::Write { track_id: 1, s });
+                }
+            }
+        }
+        sc
     }
     fn eval(case: &MuxScenario, st: &mut Stats) -> Vec<Violation> {
         modea::eval_c01("C01", case, st)
@@ -68,6 +98,7 @@ impl Prop for C01 {
             "probe.transparent_io_faults",
             "probe.write_end_retried_after_failure",
             "probe.fat_chunk_history",
+            "probe.sample_refused_near_duration_overflow",
         ]
     }
 }
